@@ -132,20 +132,24 @@ func main() {
 		fmt.Println("no probe for", target)
 		os.Exit(3)
 	}
+	// the method against concurrent updates AND against itself: two callers that only hold a shared
+	// lock run at the same time, so whatever the method writes under it races there
 	var wg sync.WaitGroup
-	wg.Add(2)
+	wg.Add(3)
 	go func() {
 		defer wg.Done()
 		for i := 0; i < 3000; i++ {
 			upd(i)
 		}
 	}()
-	go func() {
-		defer wg.Done()
-		for i := 0; i < 3000; i++ {
-			call(i)
-		}
-	}()
+	for c := 0; c < 2; c++ {
+		go func(c int) {
+			defer wg.Done()
+			for i := 0; i < 3000; i++ {
+				call(i + 5000*c)
+			}
+		}(c)
+	}
 	wg.Wait()
 	fmt.Println("no race observed for", target)
 }
